@@ -243,7 +243,8 @@ NO_INLINE = {
 
 def set_inline_context(ctx, facts):
     if _INLINE["facts"] is not facts:
-        _INLINE.update(ctx=ctx, facts=facts, targets=None, stack=[])
+        _INLINE.update(ctx=ctx, facts=facts, targets=None, stack=[],
+                       preds=None)
 
 
 def inline_targets(facts):
@@ -276,6 +277,75 @@ def inline_targets(facts):
             continue
         out[f] = ps
     return out
+
+
+def predicate_targets(facts):
+    """{name: [params]} of small in-file predicates: int functions all of
+    whose returns are integer literals, never address-taken.  A condition
+    `if (pred(x))` is analysed as the helper's own tests (a repeated test
+    factored into a static inline function or used in place of a macro)."""
+    from .cexpr import int_value
+    defined = set(facts.defined_functions())
+    refs = set()
+    for d in facts.decls:
+        callee_nodes = set()
+        for x in d.walk():
+            if x.kind == "CallExpr":
+                f0 = strip(x.ch[0])
+                if f0 is not None:
+                    callee_nodes.add(id(f0))
+        for x in d.walk():
+            if x.kind == "DeclRefExpr" and x.refkind == "FunctionDecl" \
+                    and x.ref in defined and id(x) not in callee_nodes:
+                refs.add(x.ref)
+    out = {}
+    for f in defined:
+        if f in refs or f in NO_INLINE:
+            continue
+        fn = facts.func(f)
+        t = (fn.type or "").split("(")[0].strip()
+        if t not in ("int", "static int", "long"):
+            continue
+        rets = [x for x in fn.walk() if x.kind == "ReturnStmt"]
+        if not rets or len(rets) > 6 or sum(1 for _ in fn.walk()) > 400:
+            continue
+
+        def _boolish(e):
+            e = strip(e)
+            return e is not None and (
+                (e.kind == "BinaryOperator" and e.op in (
+                    "&&", "||", "==", "!=", "<", "<=", ">", ">="))
+                or (e.kind == "UnaryOperator" and e.op == "!"))
+        # a predicate answers 0 or 1 (a tri-state -1/0/1 status is not one)
+        if any(not x.ch or (int_value(x.ch[0]) not in (0, 1)
+                            and not _boolish(x.ch[0])) for x in rets):
+            continue
+        # no loops, no calls that run Python code
+        if any(x.kind in ("ForStmt", "WhileStmt", "DoStmt", "GotoStmt")
+               for x in fn.walk()):
+            continue
+        ps = [p_.name for p_ in facts.params(f)]
+        if any(not n for n in ps):
+            continue
+        out[f] = ps
+    return out
+
+
+def _inline_cond_site(node):
+    """the call node when a condition is exactly `pred(args)` for a small
+    in-file predicate"""
+    if _INLINE["facts"] is None or node.ast is None or node.kind != "cond":
+        return None
+    if _INLINE.get("preds") is None:
+        _INLINE["preds"] = predicate_targets(_INLINE["facts"])
+    e = strip(node.ast)
+    if e is None or e.kind != "CallExpr":
+        return None
+    f = callee(e)
+    pr = _INLINE["preds"]
+    if f not in pr or f in _INLINE["stack"] or len(e.ch) - 1 != len(pr[f]):
+        return None
+    return e, f
 
 
 def _inline_site(node):
@@ -332,6 +402,53 @@ def sym_paths(g, start=None, seed=None, stops=None, max_paths=60000,
         if nid in stops:
             out.append(SymPath(trace, ("STOP", stops[nid]), lines,
                                nodes + [nid], dict(env)))
+            return
+        csite = _inline_cond_site(node) if node.kind == "cond" else None
+        if csite is not None:
+            call, fn_ = csite
+            from .ccfg import get_ccfg
+            pre = Sym(dict(env))
+            ev0 = list(trace)
+            inner = []
+            for a_ in call.ch[1:]:
+                _calls_in_order(a_, inner)
+            for c_ in inner:
+                ev0.append(("call", callee(c_),
+                            [pre.text(x) for x in c_.ch[1:]], pre.text(c_),
+                            c_.line or node.line, False))
+            argt = [pre.text(a_) for a_ in call.ch[1:]]
+            seed2 = {k: v for k, v in pre.env.items()
+                     if "->" in k or k.startswith("#")}
+            seed2.update(zip(_INLINE["preds"][fn_], argt))
+            g2 = get_ccfg(_INLINE["ctx"], _INLINE["facts"], fn_)
+            _INLINE["stack"].append(fn_)
+            try:
+                subs = sym_paths(g2, seed=seed2, max_paths=200, name=fn_)
+            finally:
+                _INLINE["stack"].pop()
+            for sp in subs:
+                if sp.outcome[0] != "RETURN":
+                    continue
+                try:
+                    truth = int(sp.outcome[1]) != 0
+                except ValueError:
+                    continue
+                env2 = dict(pre.env)
+                for k, v in sp.env.items():
+                    if "->" in k:
+                        env2[k] = v
+                tr2 = ev0 + [((t[0], t[1], t[2], -1) if t[0] == "atom" else t)
+                             for t in sp.trace]
+                ln2 = lines + [node.line] + list(sp.lines)
+                for lab, tgt in g.succ[nid]:
+                    if (lab == "T") != truth:
+                        continue
+                    cnt = counts.get(tgt, 0)
+                    if cnt >= 2:
+                        continue
+                    counts[tgt] = cnt + 1
+                    go(tgt, dict(env2), tr2, ln2, nodes + [nid], counts)
+                    counts[tgt] = cnt
             return
         site = _inline_site(node) if node.kind in ("stmt", "return") \
             else None
